@@ -67,7 +67,10 @@ def nearNat (a b : Nat) : Bool := a == b || a + 1 == b || b + 1 == a
 def nearPrim : Prim → Prim → Bool
   | .f64 a, .f64 b => a.length == b.length && (a.zip b).all fun (x, y) => nearNat x y
   | .f32 a, .f32 b => a.length == b.length && (a.zip b).all fun (x, y) => nearNat x y
-  | .strs a, .strs b => a.length == b.length    -- DS written from binary floats
+  | .strs a, .strs b => a.length == b.length && (a.zip b).all fun (x, y) =>   -- DS from binary floats
+      x == y || (match Flt.parse Flt.b64 x, Flt.parse Flt.b64 y with
+        | some u, some v => nearNat u v
+        | _, _ => false)
   | a, b => a == b
 
 mutual
